@@ -61,3 +61,7 @@ Proof.
       repeat match goal with |- context [if ?c then _ else _] => destruct c end; cbn; split; auto; intros lf H; injection H as <-; exact Hn.
   - cbn [fst]. unfold bop_wf in Hw. unfold times_pos, advance. cbn [bnow lastFail]. split; [lia|exact Hl].
 Qed.
+
+(* State() only reads: no transition hides in the query the balancer and the metrics use *)
+Lemma state_query_is_pure self now : cb_State self now = (self, cb_state self).
+Proof. reflexivity. Qed.
